@@ -31,6 +31,18 @@ def load_known():
     return json.load(open(KNOWN_PATH))
 
 
+def supporting_theorems(pid):
+    """Properties/<pid>x.v (optional): theorems that support the property but are not part of its own
+    obligation set (kept apart so that the obligation set does not depend on more than it needs)"""
+    vf = os.path.join(COQ, "theories", "Properties", pid + "x.v")
+    if not os.path.exists(vf):
+        return {}
+    names = re.findall(r'^(?:Theorem|Corollary)\s+(\w+)', open(vf).read(), re.M)
+    return {"supporting_theorems": names, "supporting_file": "coq/theories/Properties/%sx.v" % pid,
+            "supporting_checked": vo_up_to_date("theories/Properties/%sx.v" % pid),
+            "supporting_assumptions": " ".join(assumptions_of(pid + "x", "").split())[:300]}
+
+
 def theorem_inventory(pid):
     """theorems stated in Properties/<pid>.v and the lemma count of everything it depends on"""
     vf = os.path.join(COQ, "theories", "Properties", pid + ".v")
@@ -323,6 +335,7 @@ def check_property(pid, tier, seed):
         "trusted_base": TRUSTED_COMMON + ["Print Assumptions: " + (" ".join(assumptions_txt.split())[:1500] or "n/a")],
         "theorems": inv["theorems"],
         "proofs_checked": proofs_ok,
+        **supporting_theorems(pid),
         "evaluations": stats.get("evaluations", 0),
         "distinct_nontrivial": stats.get("distinct_nontrivial", 0),
         "distinct": stats.get("distinct", 0),
